@@ -12,10 +12,10 @@ import json, os, re, shutil, subprocess, sys, time, hashlib, collections
 
 ROOT = os.path.dirname(os.path.dirname(os.path.abspath(__file__)))
 SPECS = os.path.join(ROOT, "specs")
-WORK = os.path.join(ROOT, "work")
+WORK = os.environ.get("VERIF_WORK", os.path.join(ROOT, "work"))
 HARNESS = os.path.join(ROOT, "harness")
-REPLAYS = os.path.join(ROOT, "replays")
-EVIDENCE = os.path.join(ROOT, "evidence")
+REPLAYS = os.environ.get("VERIF_REPLAYS", os.path.join(ROOT, "replays"))
+EVIDENCE = os.environ.get("VERIF_EVIDENCE", os.path.join(ROOT, "evidence"))
 REPO = os.environ.get("VERIF_REPO", "/repo")
 JAR = "/opt/veriftools/tla/tla2tools.jar:/opt/veriftools/tla/CommunityModules-deps.jar"
 
